@@ -304,3 +304,58 @@ pub fn report() {
   run.assume("underflow to subnormal/zero and quantize overflow are unspecified between null and the rounded value and are not compared");
   run.finish();
 }
+
+/// replay of one recorded row: recomputes the observed value and compares it with the recorded expectation
+pub fn replay_case(case: &serde_json::Value) -> String {
+  let c = case.get("case").unwrap_or(case);
+  let g = |k: &str| c.get(k).and_then(|x| x.as_str()).unwrap_or("").to_string();
+  let (level, op, ta, tb, expected) = (g("level"), g("op"), g("a"), g("b"), g("expected"));
+  let a = match ta.parse::<FeelNumber>() {
+    Ok(a) => a,
+    Err(_) => return format!("MACHINERY operand {} does not read", ta),
+  };
+  let b = tb.parse::<FeelNumber>().ok();
+  let text = match op.as_str() {
+    "add" => "a + b",
+    "sub" => "a - b",
+    "mul" => "a * b",
+    "div" => "a / b",
+    "pow" => "a ** b",
+    "neg" => "-a",
+    "eq" => "a = b",
+    "lt" => "a < b",
+    "le" => "a <= b",
+    "abs" => "abs(a)",
+    "floor" => "floor(a)",
+    "ceiling" => "ceiling(a)",
+    "decimal" => "decimal(a, b)",
+    "modulo" => "modulo(a, b)",
+    "sqrt" => "sqrt(a)",
+    "exp" => "exp(a)",
+    "log" => "log(a)",
+    "odd" => "odd(a)",
+    "even" => "even(a)",
+    other => return format!("MACHINERY no replay for operation {}", other),
+  };
+  let observed = if level == "feel" {
+    val(&prep(text)(&scope2(&a, b.as_ref())))
+  } else {
+    let bb = b.unwrap_or(a);
+    match op.as_str() {
+      "add" => sci(&(a + bb)),
+      "sub" => sci(&(a - bb)),
+      "mul" => sci(&(a * bb)),
+      "div" => sci(&(a / bb)),
+      "rem" | "modulo" => sci(&(a % bb)),
+      "neg" => sci(&(-a)),
+      _ => val(&prep(text)(&scope2(&a, b.as_ref()))),
+    }
+  };
+  let recorded = g("observed");
+  let same = |x: &str, y: &str| x == y || matches!((x.parse::<FeelNumber>(), y.parse::<FeelNumber>()), (Ok(p), Ok(q)) if p == q);
+  if same(&observed, &expected) {
+    format!("PASS {} `{}` of {}, {} gives {} (expected {})", level, op, ta, tb, observed, expected)
+  } else {
+    format!("FAIL {} `{}` of {}, {} gives {} but {} is expected (recorded observation {})", level, op, ta, tb, observed, expected, recorded)
+  }
+}
